@@ -13,10 +13,8 @@ The four clauses of the property:
                      was skipped for lack of active indices since, then every duty of that assignment for this
                      slot (sync committee: every duty) is dispatched at this tick.  Together with `AtMostOnce`:
                      exactly once.
-Environment predicates over the event list: `ticksIncreasing` (slot ticker), `envOK` (the slots carried by
-events never go backwards: notices are handled after the ticks of earlier slots and before the ticks of later
-slots), `quietOK` (the side condition of the partial theorems: no reorg(current) / indices-change notice that
-resets the NEXT epoch's (period's) duties is followed directly by a tick of a later epoch (period)).
+Environment predicates over the event list: `ticksIncreasing` (slot ticker), `envOK` (tick slots strictly increase and
+no tick is handled after an event that carries a later slot; notices may be handled arbitrarily late).
 -/
 import Ssv.Model.Duties
 
@@ -118,45 +116,14 @@ def ticksIncreasing : Option Nat → List Event → Bool
   | lt, .tick s _ _ _ :: es => (match lt with | none => true | some t => decide (t < s)) && ticksIncreasing (some s) es
   | lt, _ :: es => ticksIncreasing lt es
 
-/-- slots carried by events never go backwards, and tick slots strictly increase -/
+/-- the order in which the handler's select loop takes events: tick slots strictly increase, and no tick is handled
+    after an event that carries a later slot (`now` = largest slot carried by an event so far).  Notices may be
+    handled arbitrarily LATE (a notice for slot 63 after the tick of slot 64, or of slot 70). -/
 def envOK : Option Nat → Nat → List Event → Bool
   | _, _, [] => true
   | lt, now, .tick s _ _ _ :: es =>
     (match lt with | none => true | some t => decide (t < s)) && decide (now ≤ s) && envOK (some s) s es
-  | lt, now, .reorg s _ _ :: es => decide (now ≤ s) && envOK lt s es
-  | lt, now, .indices c :: es => decide (now ≤ c) && envOK lt c es
-
-/-- earliest pending "next epoch/period was reset" notice -/
-def keepOldest (pend : Option Nat) (r : Nat) : Option Nat :=
-  match pend with
-  | some p => some p
-  | none => some r
-
-/-- side condition of the partial exactly-once theorems.  `ff` mirrors `fetchFirst` (a fetch-first tick re-fetches
-    before it executes, so it heals a reset), `pend` = slot of the earliest notice since the last tick that reset
-    the next epoch (period) without setting `fetchFirst`.  False iff such a notice is followed by a tick of a later
-    epoch (period) with no tick in between. -/
-def quietOK (k : Kind) (n : Net) : Bool → Option Nat → List Event → Bool
-  | _, _, [] => true
-  | _, pend, .tick s _ _ _ :: es =>
-    (match pend with | none => true | some r => decide (¬ keyOf k n r < keyOf k n s)) && quietOK k n false none es
-  | ff, pend, .reorg r prev cur :: es =>
-    match k with
-    | .att =>
-      if prev then quietOK k n true none es
-      else if cur && attShouldFetchNext n r && !ff then quietOK k n ff (keepOldest pend r) es
-      else quietOK k n ff pend es
-    | .sync =>
-      if cur && syncShouldFetchNext n r then quietOK k n ff (keepOldest pend r) es else quietOK k n ff pend es
-    | .prop => quietOK k n ff pend es
-  | ff, pend, .indices c :: es =>
-    match k with
-    | .att => if attShouldFetchNext n c && !ff then quietOK k n ff (keepOldest pend c) es else quietOK k n ff pend es
-    | _ => quietOK k n ff pend es
-
-/-- initial value of `ff` -/
-def ffInit : Kind → Bool
-  | .att => true
-  | _ => false
+  | lt, now, .reorg s _ _ :: es => envOK lt (max now s) es
+  | lt, now, .indices c :: es => envOK lt (max now c) es
 
 end Ssv.Duties
